@@ -185,7 +185,7 @@ def run_impl(case, backend="memory"):
             ctl.abandon()
         errs = [repr(w.error) for w in ctl.workers if w.error is not None]
         return {"final": final, "results": results_snapshot, "done": done, "history": history_snapshot,
-                "trace_len": trace_len, "errors": errs}
+                "trace_len": trace_len, "errors": errs, "trace": [(t, k) for t, k in ctl.trace[:trace_len]]}
     finally:
         try:
             storage.close()
@@ -406,6 +406,32 @@ def short(obs):
     return {k: obs[k] for k in ("final", "results", "done", "errors")}
 
 
+def lock_order(case, obs):
+    """the order in which the operations took the lock, if the run is one in which every operation took the lock exactly
+    once and every storage access happened while its thread held it (else None): such a run is compared with the
+    atomic semantics in that order when the step-by-step comparison fails (Harness/H15.v, check_case_atomic)"""
+    if not all(obs["done"]) or obs["errors"]:
+        return None
+    holder, order, acq = None, [], {}
+    for t, kind in obs["trace"]:
+        if kind == "acquire":
+            if holder is not None:
+                return None
+            holder = t
+            order.append(t)
+            acq[t] = acq.get(t, 0) + 1
+        elif kind == "release":
+            if holder != t:
+                return None
+            holder = None
+        elif kind == "access":
+            if holder != t:
+                return None
+    if holder is not None or any(acq.get(i, 0) != len(ops) for i, ops in enumerate(case["progs"])):
+        return None
+    return order
+
+
 def execute(ctx, cases, model_ok, res, sql_every=7):
     lits, kept = [], []
     for i, case in enumerate(cases):
@@ -439,9 +465,24 @@ def execute(ctx, cases, model_ok, res, sql_every=7):
             for sig, what in oracle(case, sobs):
                 res.violations.append({"signature": "sql:" + sig, "what": what + " (sqlite back-end)", "case": dict(case, backend="sql", post_release=POST_RELEASE)})
     if model_ok:
-        for idx in vlib.run_cases(ctx, "c", IMPORTS, "case", "check_case", lits, shard=120):
+        failed = list(vlib.run_cases(ctx, "c", IMPORTS, "case", "check_case", lits, shard=120))
+        coarse, coarse_idx = [], []
+        for idx in failed:
             case, obs = kept[idx]
-            res.mismatches.append({"component": "C15", "case": case, "impl": short(obs)})
+            order = lock_order(case, obs)
+            if order is None:
+                res.mismatches.append({"component": "C15", "case": case, "impl": short(obs)})
+            else:
+                coarse.append("{| a_case := %s; a_order := %s |}" % (lits[idx], clist([cnat(t) for t in order])))
+                coarse_idx.append(idx)
+        if coarse:
+            still = set(vlib.run_cases(ctx, "ca", IMPORTS, "acase", "check_case_atomic", coarse, shard=120))
+            for j, idx in enumerate(coarse_idx):
+                case, obs = kept[idx]
+                if j in still:
+                    res.mismatches.append({"component": "C15", "case": case, "impl": short(obs)})
+                else:
+                    res.count("agrees_at_operation_granularity_only")
     return res
 
 
